@@ -842,9 +842,65 @@ def run(ctx):
                             digit = d_.args[0].strip()
             if digit is None:
                 raise AnalysisBroken('%s:%s: the digit added to 10*len was not found' % (unit_, fname_))
-            key_ = digit.path() or digit.src()
-            cvs = _cv(fn_, x, range(-128, 128), key=lambda v: v.strip().path() or v.strip().src())
-            allowed = cvs.get(key_)
+            # which byte values reach the sum: every guard on the way that depends on the byte alone is evaluated for all 256 values,
+            # however it is spelt (comparisons, arithmetic on the byte, a helper predicate of the same file)
+            prog_ = db.program('qmail-qmtpd' if unit_ == 'qmail-qmtpd.c' else 'qmail-qmqpd')
+            eng_ = Engine(db, prog_, QHooks())
+            E_ = Env(eng_, fn_, {}, {}, None)
+            dpath = eng_.canon(E_, digit)
+            if dpath is None:
+                raise AnalysisBroken('%s:%s: the byte added to 10*len is not a plain object' % (unit_, fname_))
+
+            def helper_value(g_, u_):
+                rets = []
+
+                class HV(QHooks):
+                    def on_return(self, E, f, v):
+                        if f.name == g_.name:
+                            rets.append(v)
+                e2 = Engine(db, prog_, HV(), max_states=20000)
+                e2.run(g_, {'%s::%s' % (e2.frame_id(g_), g_.params[0]): fs(u_)})
+                vals = set()
+                for v in rets:
+                    if v is TOP:
+                        return None
+                    vals |= set(v)
+                return next(iter(vals)) if len(vals) == 1 else None
+
+            def guard_truth(c_, u_):
+                v = eng_.concrete(E_, c_, {dpath: u_})
+                if v is not None:
+                    return bool(v)
+                y, neg = c_.strip(), False
+                while y is not None and y.k == 'un' and y.op == '!':
+                    neg, y = not neg, y.args[0].strip()
+                if y is not None and y.k == 'call' and y.callee and len(y.args) == 1 and eng_.canon(E_, y.args[0]) == dpath:
+                    g_ = prog_.resolve(y.callee, unit_)
+                    if g_ is not None and g_.blocks and g_.unit == unit_ and len(g_.params) == 1:
+                        r_ = helper_value(g_, u_)
+                        if r_ is not None:
+                            return bool(r_) != neg
+                return None
+            allowed = set(range(-128, 128))
+            decided = False
+            for c_, t_ in fn_.guards(x) or []:
+                if t_ not in (True, False):
+                    continue
+                keep = set()
+                any_known = False
+                for u_ in allowed:
+                    gt = guard_truth(c_, u_)
+                    if gt is None:
+                        keep.add(u_)
+                    else:
+                        any_known = True
+                        if gt == t_:
+                            keep.add(u_)
+                if any_known:
+                    decided = True
+                    allowed = keep
+            if not decided:
+                allowed = None
             nsites += 1
             okd = allowed is not None and allowed <= set(range(48, 58)) and allowed
             odd = sorted(allowed - set(range(48, 58)))[:6] if allowed is not None else None
